@@ -97,7 +97,9 @@ def run(tier):
     rows = {r.value: r for r in architecture_features.Accelerator}
     name_of = {}
     for a in accs:
-        name_of[a] = architecture_features.Accelerator.from_npu_accelerator(a).value
+        # the public enumeration and the internal one name the same six parts: the pairing is by NAME here, so that the
+        # translation table of the implementation (Accelerator.from_npu_accelerator) is inside what is compared
+        name_of[a] = architecture_features.Accelerator[a.name].value
     first_bad = None
     for (a, ws), data in zip(cases, impl):
         evals += 1
@@ -130,7 +132,7 @@ def run(tier):
         from ethosu.vela.architecture_features import create_default_arch
         mcases = []
         for (a, ws), data in zip(cases, impl):
-            arch = create_default_arch(architecture_features.Accelerator.from_npu_accelerator(a))
+            arch = create_default_arch(architecture_features.Accelerator[a.name])
             mcases.append([driver_actions.build_config_word(arch), driver_actions.build_id_word()] + ws)
         outs = models.run("driver_payload", mcases)
         for (a, ws), data, out in zip(cases, impl, outs):
